@@ -37,7 +37,7 @@ TEXT = {
         'technique': 'bounded-exhaustive input enumeration on the implementation with algebraic oracle',
     },
     'C01': {
-        'level': 'Bounded-exhaustive exploration of the real parser and renderer under ASan/UBSan with the exact-fit growth hook (so slack capacity is a redzone) and in a fast guard-page build: every string of <=3 (quick) / <=4 (thorough) tokens over 49 template tokens (every tag opener/closer, attribute piece, quote, operator, path piece, fillers of 250/300/65540 units that wrap the 8/16-bit tag fields) plus every code-unit truncation of a token; every well-formed template with <=3/4 nodes over 14 leaf tags and 8 containers (nesting <=4) with every code-unit cut and every deviation of distance 1 (delete, insert one of 45 tokens anywhere, swap, replace a closer); each rendered from an unterminated exact-size buffer against 8 value trees (object/array roots, deep nesting, removed members, zero divisors, INT64_MIN, pointer member) as char and char16_t. Oracle: no sanitizer report, no signal (SIGFPE), no hang, earlier stream content intact, tag-free text renders to itself. Eight micro-grammars (inline-if, if-case with any quote character, expression endings, inline-if with a 65540-unit value, loop heads, super variables, mixed nesting of svar / inline-if / if / loop / else, inline-if with 257 sub-tags) walk 8-20 larger pieces each to 5-7 pieces deep, reaching constructs whose offsets the parser keeps in 8/16-bit fields and pieces that do not nest.',
+        'level': 'Bounded-exhaustive exploration of the real parser and renderer under ASan/UBSan with the exact-fit growth hook (so slack capacity is a redzone) and in a fast guard-page build: every string of <=3 (quick) / <=4 (thorough) tokens over 49 template tokens (every tag opener/closer, attribute piece, quote, operator, path piece, fillers of 250/300/65540 units that wrap the 8/16-bit tag fields) plus every code-unit truncation of a token; every well-formed template with <=3/4 nodes over 14 leaf tags and 8 containers (nesting <=4) with every code-unit cut and every deviation of distance 1 (delete, insert one of 45 tokens anywhere, swap, replace a closer); each rendered from an unterminated exact-size buffer against 8 value trees (object/array roots, deep nesting, removed members, zero divisors, INT64_MIN, pointer member) as char and char16_t. Oracle: no sanitizer report, no signal (SIGFPE), no hang, earlier stream content intact, tag-free text renders to itself. Nine micro-grammars (a loop behind 255 open tags, inline-if, if-case with any quote character, expression endings, inline-if with a 65540-unit value, loop heads, super variables, mixed nesting of svar / inline-if / if / loop / else, inline-if with 257 sub-tags) walk 8-20 larger pieces each to 5-7 pieces deep, reaching constructs whose offsets the parser keeps in 8/16-bit fields and pieces that do not nest.',
         'design_ref': 'DESIGN.md §5 C01',
         'note': 'Texts inside the stated token/deviation bounds; two character widths in the token stage; SIMD variants affect only Memory::Copy (covered by C14).',
         'technique': 'bounded-exhaustive input enumeration (token prefix tree + grammar derivations with bounded deviations) on the implementation under sanitizers',
